@@ -22,7 +22,7 @@ import re
 import vlib
 
 LEVEL = "model_checking"
-RUNS = {"quick": (96, 320), "thorough": (2400, 9600)}
+RUNS = {"quick": (96, 380), "thorough": (2400, 11400)}
 
 
 def drive(ctx, binary, ntrace, ndiff, tag, extra_env=None):
